@@ -22,6 +22,21 @@ EXTERN_MODULE_PREFIXES = ("mypy", "griffe", "logging", "pathlib", "json", "inspe
                           "importlib", "__future__")
 
 
+def _int_literals(t):
+    out = set()
+    stack = [t]
+    seen = set()
+    while stack:
+        x = stack.pop()
+        if x.get_id() in seen:
+            continue
+        seen.add(x.get_id())
+        if z3.is_int_value(x):
+            out.add(x.as_long())
+        stack.extend(x.children())
+    return out
+
+
 class Ctx:
     """Global verification context for one run."""
 
@@ -54,6 +69,7 @@ class Ctx:
         self.seqset_terms = []
         self.sort_terms = []
         self.world_mi = None
+        self.set_origin = {}               # concrete sid -> sequence the set was built from
 
     # ---------------------------------------------------------------- fresh symbols
     def new(self, prefix, sort):
@@ -102,6 +118,8 @@ class Ctx:
                 return ("dict", None, None)
             if n == "tuple":
                 return ("tuple", [])
+            if n == "rec":
+                return ("rec", None)
             ci = self.class_by_name(mi, n)
             if ci is not None:
                 return ("obj", ci)
@@ -204,6 +222,11 @@ class Ctx:
             return SpecConst(None)
         try:
             m = importlib.import_module(modname)
+            if not hasattr(m, attr):
+                try:
+                    importlib.import_module(modname + "." + attr)
+                except Exception:
+                    pass
             obj = getattr(m, attr)
         except Exception:
             return ExtFunc(f"{modname}.{attr}")
@@ -221,6 +244,33 @@ class Ctx:
         if isinstance(obj, (int, str, bool)) and not callable(obj):
             return self.lift(obj)
         return ExtFunc(f"{modname}.{attr}")
+
+    def load_repo_classes(self):
+        """Closed world: every class of the package is registered before any reasoning about subclasses."""
+        import os
+        from .source import REPO_SRC
+        root = os.path.join(REPO_SRC, "safeds_stubgen")
+        for dp, dn, fn in sorted(os.walk(root)):
+            for f in sorted(fn):
+                if not f.endswith(".py"):
+                    continue
+                rel = os.path.relpath(os.path.join(dp, f), REPO_SRC)[:-3].replace(os.sep, ".")
+                if rel.endswith(".__init__"):
+                    rel = rel[: -len(".__init__")]
+                try:
+                    mi = self.src.module(rel)
+                except (KeyError, SyntaxError):
+                    continue
+                for st in mi.tree.body:
+                    if isinstance(st, ast.ClassDef):
+                        self.ct.from_ast(mi, st, self.parse_ann)
+
+    def load_world(self, modname="specs.world"):
+        self.load_repo_classes()
+        self.world_mi = self.src.module(modname)
+        m = importlib.import_module(modname)
+        for k, v in getattr(m, "SCHEMA", {}).items():
+            self.ext_schema[k] = dict(v)
 
     def field_ann_guess(self, field):
         anns = []
@@ -336,6 +386,44 @@ class Ctx:
             s.add(cond)
         return s.check() != z3.unsat
 
+    def decide(self, path, cond):
+        """True / False if the path hypotheses decide cond, else None."""
+        cond = simp(cond)
+        if z3.is_true(cond):
+            return True
+        if z3.is_false(cond):
+            return False
+        s = z3.Solver()
+        s.set("timeout", self.feas_timeout_ms)
+        s.add(*path.pc, *path.facts)
+        s.push()
+        s.add(z3.Not(cond))
+        if s.check() == z3.unsat:
+            return True
+        s.pop()
+        s.add(cond)
+        if s.check() == z3.unsat:
+            return False
+        return None
+
+    def resolve(self, path, t, depth=0):
+        """Simplify t under the path hypotheses: ite-terms whose condition is decided are collapsed."""
+        t = simp(t)
+        if depth > 6 or not z3.is_app(t):
+            return t
+        if t.decl().kind() == z3.Z3_OP_ITE:
+            d = self.decide(path, t.arg(0))
+            if d is True:
+                return self.resolve(path, t.arg(1), depth + 1)
+            if d is False:
+                return self.resolve(path, t.arg(2), depth + 1)
+            return t
+        if t.num_args() and t.decl().kind() in (z3.Z3_OP_ADD, z3.Z3_OP_SUB, z3.Z3_OP_MUL, z3.Z3_OP_UMINUS):
+            ch = [self.resolve(path, c, depth + 1) for c in t.children()]
+            if any(not z3.eq(a, b) for a, b in zip(ch, t.children())):
+                return simp(t.decl()(*ch))
+        return t
+
     def branch(self, path, cond, label=""):
         """Yield (path, bool) for each feasible outcome of a Bool condition."""
         cond = simp(cond)
@@ -409,7 +497,7 @@ class Ctx:
         else:
             c = self.new(name + "_cls", smt.IntS)
             t = V.VObj(c, oid)
-            path.assume(z3.Or([c == k.cid for k in ci.all_subclasses()]))
+            path.assume(z3.Or([c == k.cid for k in ci.instance_classes()]))
         path.assume(z3.And(oid >= 0, oid < ALLOC_BASE))
         return Val(t, ("obj", ci), own="borrow")
 
@@ -430,12 +518,42 @@ class Ctx:
             path.heap[field] = z3.Array(f"H0_{field}", smt.IntS, V)
         return path.heap[field]
 
-    def read_field(self, path, obj: Val, field, ann=None):
+    def _select(self, path, field, oid):
+        """Value of `field` of the object with identity `oid`: fresh objects (concrete ids) live in path.fresh,
+        pre-existing ones in the heap arrays. A symbolic identity that may denote a fresh object is resolved
+        by cases over the fresh ids it mentions."""
+        oid = simp(oid)
+        if z3.is_int_value(oid) and oid.as_long() >= ALLOC_BASE:
+            return path.fresh.get((field, oid.as_long()), V.VNone)
         arr = self.heap_arr(path, field)
-        t = simp(z3.Select(arr, V.oid(obj.t)))
+        t = z3.Select(arr, oid)
+        lits = set()
+        stack = [oid]
+        seen = set()
+        while stack:
+            x = stack.pop()
+            if x.get_id() in seen:
+                continue
+            seen.add(x.get_id())
+            if z3.is_int_value(x) and x.as_long() >= ALLOC_BASE:
+                lits.add(x.as_long())
+            stack.extend(x.children())
+        for L in sorted(lits):
+            if (field, L) in path.fresh:
+                t = z3.If(oid == L, path.fresh[(field, L)], t)
+        return simp(t)
+
+    def read_field(self, path, obj: Val, field, ann=None):
+        t = self._select(path, field, V.oid(obj.t))
         own = "imm" if not ann_mutable(ann) else ("fresh" if obj.own == "fresh" else "borrow")
         v = Val(t, ann, own=own, deep=(own != "borrow"), src=("attr", obj, field))
-        f = ann_fact(t, ann, self.ct)
+        oid = simp(V.oid(obj.t))
+        fresh_obj = z3.is_int_value(oid) and oid.as_long() >= ALLOC_BASE
+        # declared shapes are an assumption about pre-existing objects only; objects built by the code under
+        # verification hold whatever the code stored
+        f = None if fresh_obj else ann_fact(t, ann, self.ct)
+        if fresh_obj and smt.ctor(t) is not None:
+            v.ann = ann if (ann_fact(t, ann, self.ct) is not None and z3.is_true(simp(ann_fact(t, ann, self.ct)))) else None
         if f is not None:
             path.assume(f, "declared field shapes (valid model objects)")
         if ann is not None and ann[0] == "obj" and ann[1].is_enum:
@@ -443,8 +561,18 @@ class Ctx:
         return v
 
     def write_field(self, path, obj: Val, field, val: Val):
+        oid = simp(V.oid(obj.t))
+        if z3.is_int_value(oid) and oid.as_long() >= ALLOC_BASE:
+            path.fresh[(field, oid.as_long())] = simp(val.t)
+            return
+        lits = [x for x in _int_literals(oid) if x >= ALLOC_BASE]
+        if lits:
+            # may denote a fresh object: update both views by cases
+            for L in lits:
+                old = path.fresh.get((field, L), V.VNone)
+                path.fresh[(field, L)] = simp(z3.If(oid == L, val.t, old))
         arr = self.heap_arr(path, field)
-        path.heap[field] = simp(z3.Store(arr, V.oid(obj.t), val.t))
+        path.heap[field] = simp(z3.Store(arr, oid, val.t))
 
     # ---------------------------------------------------------------- sets
     def set_arr(self, path, v: Val):
@@ -453,10 +581,12 @@ class Ctx:
             return path.sets[sid.as_long()]
         return smt.setof(sid)
 
-    def mk_set(self, path, arr, ann=None, own="fresh"):
+    def mk_set(self, path, arr, ann=None, own="fresh", frozen=None):
         sid = next(self.alloc)
         path.sets[sid] = simp(arr)
-        return Val(V.VSet(z3.IntVal(sid)), ann or ("set", None), own=own)
+        if frozen is None:
+            frozen = ann is not None and ann[0] == "frozenset"
+        return Val(V.VSet(z3.IntVal(sid), z3.BoolVal(bool(frozen))), ann or ("set", None), own=own)
 
     def dict_parts(self, path, v: Val):
         did = simp(V.did(v.t))
